@@ -419,7 +419,7 @@ def gen_scenario(root, profile=None):
         elif f in ("min_metric_value", "max_metric_value"):
             stop[f] = {"loss": r.uniform(0.05, 0.95)}
         else:
-            stop[f] = r.randint(1, p["max_trials"])
+            stop[f] = r.randint(p.get("min_trials", 1), p["max_trials"])
     if "max_wallclock_time" not in stop and "max_num_trials_started" not in stop:
         # safety net so that every run terminates in bounded simulated time
         stop["max_wallclock_time"] = 150.0 * script["pace"]["mean"]
